@@ -204,6 +204,8 @@ def h_flow(t, part):
             w.c.on('disconnect', mk('disconnect', ns), namespace=ns)
     answered = {'n': 0, 'script': []}
     serving = {'on': True}
+    dropped = {'v': False}
+    efforts = {'n': 0}
 
     def serve_connects():
         """the server answers the CONNECT packets it has received so far (accept / refuse, from the tape)"""
@@ -214,8 +216,15 @@ def h_flow(t, part):
             if isinstance(p, tuple) or p.packet_type != packet.CONNECT:
                 continue
             ns = p.namespace or '/'
-            refuse = answered['n'] >= 2 and t.bool()       # the initial connection is accepted
+            k = t.choice(3 if not dropped['v'] else 2) if answered['n'] >= 2 else 0     # the initial connection is accepted
+            refuse = k == 1
             answered['n'] += 1
+            if k == 2:
+                # the transport comes up and is lost again before the server has answered (during an attempt)
+                dropped['v'] = True
+                answered['script'].append((ns, 'drop'))
+                yield 'DROP'
+                return did
             answered['script'].append((ns, 'refuse' if refuse else 'accept'))
             did = True
             if refuse:
@@ -226,6 +235,16 @@ def h_flow(t, part):
             yield worlds.encode_frames(pk)[0]
         return did
 
+    real_hr = w.c._handle_reconnect
+    if asyncio_:
+        async def _handle_reconnect(*a, **kw):      # (same name: the harness recognises the effort's task by it)
+            efforts['n'] += 1
+            return await real_hr(*a, **kw)
+    else:
+        def _handle_reconnect(*a, **kw):
+            efforts['n'] += 1
+            return real_hr(*a, **kw)
+    w.c._handle_reconnect = _handle_reconnect
     mod = socketio.async_client if asyncio_ else socketio.client
     saved_random = mod.random
     mod.random = rs
@@ -239,6 +258,9 @@ def h_flow(t, part):
                 while not stop['v']:
                     await miniloop._Suspend('cond', lambda: stop['v'] or (serving['on'] and len(w.eio.out) > w.pos), None, 'server idle')
                     for fr in serve_connects():
+                        if fr == 'DROP':
+                            await w.eio.lose()
+                            break
                         await w.eio.recv(fr)
             miniloop.create_task(server(), 'server')
             run = w.call
@@ -250,6 +272,9 @@ def h_flow(t, part):
                         event.set()                     # shutdown() sets the abort event during this back-off wait
                     return
                 for fr in serve_connects():
+                    if fr == 'DROP':
+                        w.eio.lose()
+                        break
                     w.eio.recv(fr)
             waithook.HOOK[0] = hook
             run = w.call
@@ -298,6 +323,10 @@ def h_flow(t, part):
         else:
             w.eio.run_bg()
         attempts = w.eio.connects[first_attempts:]
+        if not asyncio_:
+            w.eio.run_bg()
+        if efforts['n'] != 1:
+            return Fail('reconnect:concurrent-efforts=%d' % efforts['n'], 'script %r' % (answered['script'],))
         for a in attempts:
             if a != ('http://h', {'x': 'y'}, ['polling'], 'sp'):
                 return Fail('reconnect:flow:attempt-parameters', repr(a))
@@ -307,12 +336,16 @@ def h_flow(t, part):
             return None
         if len(attempts) > 2:
             return Fail('reconnect:too-many-attempts', repr(attempts))
+        if dropped['v']:
+            return None
         if w.c.connected:
             # success: the connect handlers ran again for every namespace, sids are the new ones
             news = [e for e in ev if e[0] == 'connect']
             # the final, successful attempt accepted both namespaces: each connect handler ran for it
             final_conn = [e[1] for e in news][-2:]
-            if sorted(final_conn) != ['/', '/a']:
+            if dropped['v']:
+                pass        # after a drop the bookkeeping of which attempt accepted what is not compared
+            elif sorted(final_conn) != ['/', '/a']:
                 return Fail('reconnect:connect-handlers-after-success', 'connect handler calls %r, script %r' % (news, answered['script']))
             sids = {ns: w.c.get_sid(ns) for ns in NSS}
             want = {}
@@ -321,7 +354,7 @@ def h_flow(t, part):
                 k += 1 if what == 'accept' else 0
                 if what == 'accept':
                     want[ns] = 'sid%d' % k
-            if sids != want and not early:
+            if sids != want and not early and not dropped['v']:
                 return Fail('reconnect:stale-sid-after-reconnect', 'client has %r, server issued %r last' % (sids, want))
             # a further loss right after the success starts exactly one new effort
             if not asyncio_:
